@@ -360,3 +360,54 @@ func thresholdEvents(c *Ctx, before, after roaring.VerifView) {
 		}
 	}
 }
+
+// algebraStep applies one in-place set operation to bm with an operand that is a relative of bm's current content
+// (some whole chunks of it, parts of others, a few values elsewhere): whole chunks vanish or survive untouched,
+// the operand runs out before / after the receiver, chunks slide to other slots. Returns the operation name.
+func algebraStep(c *Ctx, bm *BM, sigPrefix string) string {
+	r := c.R
+	op := binOps[r.Intn(4)]
+	om := NewISet()
+	seen := map[uint64]bool{}
+	for _, v := range splitAtChunks(bm.M.Intervals()) {
+		k := v.Lo >> 16
+		if seen[k] || len(seen) > 300 {
+			continue
+		}
+		seen[k] = true
+		switch x := r.Intn(10); {
+		case x < 4: // the whole chunk
+			for _, w := range bm.M.Restrict(k<<16, k<<16|0xFFFF).Intervals() {
+				om.AddRange(w.Lo, w.Hi)
+			}
+		case x < 6: // a superset / an overlapping range
+			om.AddRange(v.Lo, minU(v.Hi+r.Range(0, 50), k<<16|0xFFFF))
+		case x < 7:
+			om.Add(k<<16 | edgeVal16(r))
+		}
+	}
+	if r.Chance(0.5) {
+		om.Add(edgeVal32(r, bm.M))
+	}
+	if r.Chance(0.3) {
+		// cut the operand off behind a random point so that it ends before the receiver does
+		if mx, ok := om.Max(); ok {
+			om.RemoveRange(r.Range(0, mx), max32)
+		}
+	}
+	f := formsNoZC[r.Intn(len(formsNoZC))]
+	ob, es := buildForm(r, om, f)
+	if es != "" {
+		c.Fail("build/"+f, "%s", es)
+		return op
+	}
+	c.Step("%s in place with a relative of the current content (form %s) %v", op, f, descSet(om))
+	want := modelOp(op, bm.M, om)
+	c.Guard(sigPrefix+"I"+op, func() { inplaceOp(op, bm.B, ob.B) })
+	bm.M = want
+	if d := checkEq(ob.B, om); d != "" && !c.Failed() {
+		c.Fail(sigPrefix+"I"+op+"/argument-changed", "the argument of the in-place %s changed: %s", op, d)
+	}
+	c.Count("op_I" + op)
+	return "I" + op
+}
